@@ -1,2 +1,7 @@
--- driver stub (not built yet)
-def main : IO Unit := pure ()
+import QmcModel.Proto
+import QmcModel.Tempering
+open Qmc Qmc.Proto
+
+/-- C05 driver (same protocol as C10): replays tempering steps (`sw`, `psw`), pair queries (`pair`) and the
+edge-count regression (`mismatch`) through the model in `QmcModel/Tempering.lean`. -/
+def main : IO Unit := run Qmc.Tempering.Drv.step
